@@ -43,7 +43,7 @@ def _strategy(kinds):
             cfg = draw(simcfg.ns_config(tier, kinds=kinds))
             dim = simcfg.sim_dim(cfg["sim"])
             ncomp_primary = {"ns2d": 1, "ns3d": 3, "passive2d": 1, "passive3d_scalar": 1, "passive3d_vector": 3}[cfg["sim"]]
-            fk = ["constant", "poly", "bumps", "spikes", "checker", "noise", "mixed"]
+            fk = ["constant", "poly", "bumps", "spikes", "checker", "noise", "mixed", "boxnoise"]
             return {
                 "cfg": cfg,
                 "primary": draw(gen.vector_field_spec(ncomp_primary, kinds=fk, max_mag_exp=6)),
